@@ -3,6 +3,7 @@
 package main
 
 import (
+	"context"
 	"crypto/sha256"
 	"fmt"
 	"sort"
@@ -98,6 +99,61 @@ func (e *poolEngine) showBatch(b interface {
 
 func (e *poolEngine) step(ws []string) string {
 	switch ws[0] {
+	case "txcache": // txcache size=<k> n=<n> [nil=<i>] : the real TxCache (ListenEvent goroutine, set size k, tick 40ms) is fed n
+		// transactions (a nil one at position i), the sets it posts are collected until it has been silent for 500ms (12 ticks)
+		o := kv(ws[1:])
+		k, _ := strconv.ParseUint(o["size"], 10, 64)
+		n, _ := strconv.Atoi(o["n"])
+		nilAt := -1
+		if v, ok := o["nil"]; ok {
+			nilAt, _ = strconv.Atoi(v)
+		}
+		if n > 3000 {
+			return "bad-op"
+		}
+		tc := mempool.NewTxCache(40*time.Millisecond, k, quietLogger)
+		ctx, cancel := context.WithCancel(context.Background())
+		defer cancel()
+		go tc.ListenEvent(ctx)
+		var sets []string
+		empties := 0
+		seen := 0
+		inOrder := true
+		done := make(chan struct{})
+		go func() {
+			defer close(done)
+			for {
+				select {
+				case set := <-tc.TxSetC:
+					for _, tx := range set.Transactions {
+						if tx.GetNonce() != uint64(seen) {
+							inOrder = false
+						}
+						seen++
+					}
+					if len(set.Transactions) == 0 {
+						// a tick of an earlier generation whose timer goroutine missed its stop signal posts an empty set:
+						// nothing is lost by it; counted apart (the number depends on goroutine scheduling)
+						empties++
+						continue
+					}
+					sets = append(sets, fmt.Sprint(len(set.Transactions)))
+				case <-time.After(500 * time.Millisecond):
+					return
+				}
+			}
+		}()
+		sent := 0
+		for i := 0; i < n; i++ {
+			if i == nilAt {
+				tc.RecvTxC <- nil
+				continue
+			}
+			tc.RecvTxC <- &pb.BxhTransaction{From: pAddr("a0"), To: pAddr("a7"), Nonce: uint64(sent), TransactionHash: hashOf(fmt.Sprintf("tc%d", sent))}
+			sent++
+		}
+		<-done
+		return fmt.Sprintf("sets=[%s] order=%d ## empty-sets=%d", strings.Join(sets, " "), b2i(inOrder), empties)
 	case "reset":
 		e.mp = nil
 		return "ok"
@@ -123,8 +179,9 @@ func (e *poolEngine) step(ws []string) string {
 		o := kv(ws[1:4])
 		g, _ := strconv.Atoi(o["g"])
 		if g != e.lastGroup {
-			// make arrival times of different groups clearly distinct
-			time.Sleep(3 * time.Millisecond)
+			// make arrival times of different groups clearly distinct (the eviction op needs a duration that separates them; a
+			// stall of the process between its clock reading and the pool's own must stay below half the gap)
+			time.Sleep(12 * time.Millisecond)
 		}
 		var txs []pb.Transaction
 		for _, s := range ws[4:] {
@@ -235,7 +292,7 @@ func (e *poolEngine) step(ws []string) string {
 	case "evict": // evict cut=<group>: remove what arrived in groups <= cut (subject to the pool's rule)
 		o := kv(ws[1:])
 		cut, _ := strconv.Atoi(o["cut"])
-		time.Sleep(3 * time.Millisecond)
+		time.Sleep(12 * time.Millisecond)
 		now := time.Now().UnixNano()
 		// duration so that groups <= cut are older than it and groups > cut are younger
 		var older, younger int64 = -1, -1
@@ -258,8 +315,8 @@ func (e *poolEngine) step(ws []string) string {
 		case younger < 0:
 			d = (now - older) / 2
 		default:
-			// arrival stamps of group g are <= groupTime[g]; those of the next group are > groupTime[g] + 3ms
-			d = now - older - 1500000
+			// arrival stamps of group g are <= groupTime[g]; those of the next group are > groupTime[g] + 12ms
+			d = now - older - 6000000
 		}
 		n := e.mp.RemoveAliveTimeoutTxs(time.Duration(d))
 		return fmt.Sprintf("removed=%d", n)
